@@ -393,7 +393,7 @@ impl Check for Swap {
         let c = swap_cfg();
         prop_oneof![
             2 => (ga::program(&c), ga::program(&c), any::<bool>(), gt::choices(8)).prop_map(|(left, right, mu, choices)| SwapCase::Strong { left, right, mu, choices }),
-            1 => gt::choices(160).prop_map(|choices| SwapCase::External { choices }),
+            1 => gt::choices(180).prop_map(|choices| SwapCase::External { choices }),
         ]
         .boxed()
     }
